@@ -4,6 +4,7 @@ import (
 	"context"
 	"io"
 	"net/http"
+	"sync/atomic"
 )
 
 // Options controls the dump behavior.
@@ -119,7 +120,8 @@ func (ds Dumpers) DumpResponseHeader(p []byte) {
 // Dumper is the dump tool.
 type Dumper struct {
 	Options
-	ch chan *dumpTask
+	ch      chan *dumpTask
+	running int32 // 1 while Start is draining ch
 }
 
 type dumpTask struct {
@@ -154,7 +156,10 @@ func (d *Dumper) DumpTo(p []byte, output io.Writer) {
 	if len(p) == 0 || output == nil {
 		return
 	}
-	if d.Async() {
+	// Only queue when Start is draining the channel (a request-level dumper is
+	// never started): otherwise nothing would be written and the sender would
+	// block forever once the channel is full.
+	if d.Async() && atomic.LoadInt32(&d.running) == 1 {
 		b := make([]byte, len(p))
 		copy(b, p)
 		d.ch <- &dumpTask{Data: b, Output: output}
@@ -188,6 +193,8 @@ func (d *Dumper) Stop() {
 }
 
 func (d *Dumper) Start() {
+	atomic.StoreInt32(&d.running, 1)
+	defer atomic.StoreInt32(&d.running, 0)
 	for t := range d.ch {
 		if t == nil {
 			return
